@@ -230,7 +230,7 @@ CANARIES = {
             "module": "mici.utils",
             "old": "            self.log_val = log_sum_exp(self.log_val, log(other))",
             "new": "            self.log_val = log_sum_exp(self.log_val, other)",
-            "cases": ["algebra"], "what": "in-place accumulation of a plain number adds exp(number)",
+            "cases": ["specials"], "what": "in-place accumulation of a plain number adds exp(number)",
         },
         "log1m_exp_dead_branch": {
             "module": "mici.utils",
